@@ -51,7 +51,10 @@ type (
 		X   Expr
 		Typ string
 	}
+	EParen struct{ X Expr }
 )
+
+func (e *EParen) String() string { return "(" + e.X.String() + ")" }
 
 func (e *EIdent) String() string { return e.Name }
 func (e *ENum) String() string   { return e.V }
@@ -310,6 +313,10 @@ func (p *parser) unary() Expr {
 }
 func (p *parser) postfix() Expr {
 	x := p.primary()
+	// parentheses only matter in front of a selector: `(T).m` names a method with a value receiver (exprName keeps them)
+	if ep, ok := x.(*EParen); ok && !p.isOp(".") {
+		x = ep.X
+	}
 	for {
 		switch {
 		case p.isOp("."):
@@ -461,7 +468,7 @@ func (p *parser) primary() Expr {
 		if t.v == "(" {
 			e := p.iff()
 			p.expectOp(")")
-			return e
+			return &EParen{e}
 		}
 	}
 	panic(fmt.Errorf("spec parse: unexpected token %v in %q", t, p.src))
